@@ -146,10 +146,10 @@ func codecAdditionKeys(m map[consts.JT808LocationAdditionType]model.Addition) []
 	return ks
 }
 
+// vals: the parse result. A plugged-in extension object is part of the result only through
+// Additions[id].Content.CustomValue (which points at it when an item of its id was parsed); when the body has no
+// such item the object is not reachable from the result and whatever it still holds is not an outcome of this parse.
 func (b *codecBodyRecv) vals() []interface{} {
-	if b.ext != nil {
-		return []interface{}{b.v, b.ext}
-	}
 	return []interface{}{b.v}
 }
 
